@@ -380,12 +380,16 @@ class Plan:
             # restricted re-entrancy: the pre hook at event index spec[1] detaches another child of its
             # parent argument (a bounded parent evicting its oldest child); it never raises
             self.evict_at = self.spec[1]
+        elif t == "rehome":
+            # restricted re-entrancy, group hooks: the _pre_detach_children hook at event index spec[1] moves the
+            # first of the children it is told about below another node (an "archive"); it never raises
+            self.evict_at = self.spec[1]
         elif t != "none":
             raise ValueError(spec)
 
     def fires(self, i, kind, n):
         t = self.t
-        if t == "none" or t == "evict":
+        if t == "none" or t == "evict" or t == "rehome":
             return False
         if t == "persist":
             return kind == self.kind and (self.label is None or self.label == n)
@@ -448,6 +452,20 @@ class Rec:
             if victims:
                 self.evicted.append((i, victims[0]))
                 self.nodes[victims[0]].parent = None
+        elif self.plan.t == "rehome" and i == self.plan.evict_at and kind == "pre_detach_children" and isinstance(nl, int) and al and isinstance(al[0], int):
+            now = snap if snap is not None else self.snapshot()
+            victim = al[0]
+            below = set()
+            stack = [victim]
+            while stack:
+                x = stack.pop()
+                if x not in below:
+                    below.add(x)
+                    stack.extend(c for c in now[x][1] if isinstance(c, int))
+            homes = [x for x in range(len(now)) if x != nl and x not in below]
+            if homes:
+                self.evicted.append((i, victim, homes[-1]))
+                self.nodes[victim].parent = self.nodes[homes[-1]]
         elif snap is not None and isinstance(nl, int):
             # a validating hook also reads derived attributes of its node (values must not be memoised from here)
             node.root, node.depth, node.height  # noqa: B018
